@@ -2,6 +2,7 @@
 // engine (gosym) by name before its body is entered.
 package verifrt
 
+func StrFromCodes(codes ...int) string          { panic("symbolic only") }
 func NondetString(name string) string               { panic("symbolic only") }
 func NondetInt(name string, lo, hi int) int         { panic("symbolic only") }
 func NondetInt32(name string, lo, hi int32) int32   { panic("symbolic only") }
@@ -32,6 +33,7 @@ func StrLt(a, b string) bool                        { panic("symbolic only") }
 func StrContains(s, sub string) bool                { panic("symbolic only") }
 func StrHasPrefix(s, p string) bool                 { panic("symbolic only") }
 func StrEqualFold(a, b string) bool                 { panic("symbolic only") }
+func StrOver(s, alphabet string) bool               { panic("symbolic only") }
 func StrPlain(s string) bool                        { panic("symbolic only") }
 func MapOrderAll(on bool)                           { panic("symbolic only") }
 func Panics(f func()) bool                          { panic("symbolic only") }
@@ -78,4 +80,5 @@ func (s *Stream) Rewind()                        { panic("symbolic only") }
 func (s *Stream) AtStart() bool                  { panic("symbolic only") }
 func (s *Stream) FailSeek(on bool)               { panic("symbolic only") }
 func (s *Stream) Tree() *J                       { panic("symbolic only") }
+func (s *Stream) SetLayoutFirstByte(b int)       { panic("symbolic only") }
 func (s *Stream) Wrote() bool                    { panic("symbolic only") }
